@@ -268,9 +268,13 @@ def blame_key(isa, log, d, pool2, base_tree):
         actor = actor_name(log["steps"][0], blocks) if s >= 2 else "?"
     rn = ",".join(regs) if regs else "none"
     key = "C10:%s:%s>%s:%s.sf" % (isa, actor, witness, rn)
-    what = ("%s: after `%s` the map of `%s` (bytes %s) %s: amoco's own evaluation of location %s on valuation %d is %s instead of %s; "
+    arec = log["steps"][s - 1] if d["clause"] == "Stable" else log["steps"][0]
+    abytes = ""
+    if arec.get("act") in ("Analyse", "Decode") and arec.get("b") in blocks:
+        abytes = " (bytes %s)" % " ".join(bytes(c).hex() for c in blocks[arec["b"]]["code"])
+    what = ("%s: after `%s`%s the map of `%s` (bytes %s) %s: amoco's own evaluation of location %s on valuation %d is %s instead of %s; "
             "sf flag changed on the shared register object(s) %s"
-            % (isa, actor, witness, " ".join(bytes(c).hex() for c in blocks[d["b"]]["code"]) if d["b"] in blocks else "?",
+            % (isa, actor, abytes, witness, " ".join(bytes(c).hex() for c in blocks[d["b"]]["code"]) if d["b"] in blocks else "?",
                "changes its meaning (Stable)" if d["clause"] == "Stable" else "differs from its meaning in a fresh process (HistoryFree)",
                loc, d["val"], d["after"], d["before"], rn))
     return key, what
